@@ -148,7 +148,16 @@ struct Affine<C: CurveAffine> {
 
 impl<C: CurveAffine> Affine<C> {
     fn from(point: &C) -> Self {
-        let coords = point.coordinates().unwrap();
+        // The identity has no affine coordinates. It gets a placeholder that is
+        // never read: `msm_best` skips identity bases (they contribute nothing).
+        let coords = point.coordinates();
+        if bool::from(coords.is_none()) {
+            return Self {
+                x: C::Base::ZERO,
+                y: C::Base::ZERO,
+            };
+        }
+        let coords = coords.unwrap();
 
         Self {
             x: *coords.x(),
@@ -486,7 +495,8 @@ pub fn msm_best<C: CurveAffine>(coeffs: &[C::Scalar], bases: &[C]) -> C::Curve {
         for (base_idx, coeff) in coeffs.iter().enumerate() {
             let buck_idx = get_booth_index(w, c, coeff.as_ref());
 
-            if buck_idx != 0 {
+            // the batch-affine formulas are not defined for the identity
+            if buck_idx != 0 && !bool::from(bases[base_idx].is_identity()) {
                 // parse bucket index
                 let sign = buck_idx.is_positive();
                 let buck_idx = buck_idx.unsigned_abs() as usize - 1;
